@@ -1,3 +1,15 @@
 import TFVerif.Props.C06
 open TFVerif.C06
-#print axioms cat_empty_rejected
+#print axioms fromCells_iff
+#print axioms cells_fromCells
+#print axioms ofGrid_grid
+#print axioms met_cells_roundtrip
+#print axioms catRows_cells
+#print axioms catCols_cells
+#print axioms cat_rejects
+#print axioms split_cat_rows
+#print axioms split_by_slices_then_cat
+#print axioms toDense_cell
+#print axioms met_catRows_cells
+#print axioms met_catCols_cells
+#print axioms met_cat_single
